@@ -234,6 +234,20 @@ func (s *c17Sim) renew(cs consensus.State, kind int) (rn types.V2FileContractRen
 	if allowance.IsZero() {
 		allowance = types.NewCurrency64(1)
 	}
+	switch r.rng.IntN(7) { // requested collateral around the collateral the old contract has locked
+	case 0:
+		collateral = fc.TotalCollateral
+	case 1:
+		if !fc.TotalCollateral.IsZero() {
+			collateral = fc.TotalCollateral.Sub(types.NewCurrency64(1))
+		}
+	case 2:
+		collateral = fc.TotalCollateral.Add(types.NewCurrency64(1))
+	case 3:
+		collateral = fc.TotalCollateral.Div64(2)
+	case 4:
+		collateral = fc.MissedHostValue
+	}
 	ph := fc.ProofHeight + 1 + uint64(r.rng.IntN(300))
 	fee := types.NewCurrency64(1 + r.rng.Uint64N(1e12))
 	var usage rhp4.Usage
@@ -254,6 +268,15 @@ func (s *c17Sim) renew(cs consensus.State, kind int) (rn types.V2FileContractRen
 	args = append(args, hc(allowance), hc(collateral), hx(ph), hc(fee))
 	if pan {
 		r.emit(true, fmt.Sprintf("renew-%d-panic", kind), "c17.renew", args, []string{"2"})
+		// on a reachable contract the constructors only panic when a price product overflows a Currency; with every
+		// quantity below 2^90 and at most 2^22-byte sectors x 2^20 blocks that cannot happen
+		small := func(c types.Currency) bool { return c.Hi < 1<<26 }
+		if s.reachable() && small(fc.RenterOutput.Value) && small(fc.HostOutput.Value) && small(allowance) && small(collateral) &&
+			small(s.prices.ContractPrice) && s.prices.Collateral.Hi == 0 && s.prices.Collateral.Lo < 1<<30 && s.prices.StoragePrice.Hi == 0 && s.prices.StoragePrice.Lo < 1<<30 &&
+			fc.Filesize < 1<<45 && ph < 1<<20 && fc.ExpirationHeight < 1<<20 {
+			r.violate("c17.renewal-panic", "renewal constructor kind %d panics on a reachable contract (renter %v, host %v, missed %v, total collateral %v, filesize %d) with allowance %v, collateral %v", kind,
+				fc.RenterOutput.Value, fc.HostOutput.Value, fc.MissedHostValue, fc.TotalCollateral, fc.Filesize, allowance, collateral)
+		}
 		return rn, false
 	}
 	costPan, _ = try(func() {
